@@ -213,6 +213,8 @@ class Blob(BaseColumnType):
   """
   @classmethod
   def do_convert(cls, value):
+    if not isinstance(value, (bytes, NoneType)):
+      raise objtypes.ConversionError("Blob")
     return value
 
   @classmethod
